@@ -38,9 +38,23 @@ type Val struct {
 	B []byte `json:"b,omitempty"`
 	N int    `json:"n,omitempty"`
 	F byte   `json:"f,omitempty"`
+	R bool   `json:"r,omitempty"` // incompressible (fixed xorshift stream seeded by F and N) instead of constant-filled: the stream is snappy-compressed before it is chunked
 }
 
 func (v Val) Bytes() []byte {
+	if v.N > 0 && v.R {
+		out := make([]byte, v.N)
+		x := uint64(v.F)*2654435761 + uint64(v.N) + 88172645463325252
+		for i := range out {
+			if i%8 == 0 {
+				x ^= x << 13
+				x ^= x >> 7
+				x ^= x << 17
+			}
+			out[i] = byte(x >> (8 * (i % 8)))
+		}
+		return out
+	}
 	if v.N > 0 {
 		return bytes.Repeat([]byte{v.F}, v.N)
 	}
@@ -83,9 +97,9 @@ func genKVs(t *rapid.T, label string, minN, maxN int, large bool) []KV {
 		case c <= 5:
 			v = Val{B: rapid.SliceOfN(rapid.Byte(), 1, 40).Draw(t, label+".v")}
 		case c <= 8 || !large:
-			v = Val{N: rapid.IntRange(50, 3000).Draw(t, label+".vn"), F: 'm'}
+			v = Val{N: rapid.IntRange(50, 3000).Draw(t, label+".vn"), F: 'm', R: rapid.Bool().Draw(t, label+".vr")}
 		default:
-			v = Val{N: rapid.SampledFrom([]int{256 * 1024, 1024 * 1024, 2*1024*1024 - 100, 2 * 1024 * 1024}).Draw(t, label+".vbig"), F: 'L'}
+			v = Val{N: rapid.SampledFrom([]int{256 * 1024, 1024 * 1024, 2*1024*1024 - 100, 2 * 1024 * 1024}).Draw(t, label+".vbig"), F: 'L', R: rapid.Bool().Draw(t, label+".vr")}
 		}
 		out = append(out, KV{K: k, V: v})
 	}
